@@ -98,8 +98,9 @@ open YaraModel.ReVm YaraModel.ReEmit in
     language — inside a loop it depends on the loop counter read from the stack at the loop's nesting depth — and every
     machine step keeps "what the successor accepts, the predecessor accepts" (`seg_step`).
     Both models are validated against the C functions on every generated case (real bytecode: C VM = Lean VM; emitted bytes
-    equal).  Separate statements, not yet proved: wide mode, backward code, and the converse inclusion (completeness, which
-    needs the executed-split-set argument for ε-loops). -/
+    equal).  Wide mode and backward code: `vm_sound_forward`, `vm_sound_backward` below.  Not yet proved: the converse inclusion
+    (completeness, which needs the executed-split-set argument for ε-loops) and runs that enter the code at an atom's
+    instruction in the middle (the composition of `_yr_scan_verify_re_match`; at the level of the specification: `decompose`). -/
 theorem vm_sound (r : Re) (hwf : WF r) (hsz : (emit false r 0).1.length < 32000) (buf : Bytes) (start : Nat) (hst : start ≤ buf.size)
     (fl : VmFlags) (hw : fl.wide = false) (hb : fl.backwards = false) (fuel : Nat) (m : Int) (c : List Nat)
     (h : exec { code := (emitCode false r).toArray, entry := 0, buf := buf, start := start, fl := fl, syncFuel := fuel } = .done m c) :
@@ -108,6 +109,40 @@ theorem vm_sound (r : Re) (hwf : WF r) (hsz : (emit false r 0).1.length < 32000)
     (0 ≤ m → ∃ s0, start ≤ s0 ∧ s0 ≤ start + m.toNat ∧ start + m.toNat ≤ buf.size ∧ (fl.scan = false → s0 = start) ∧
       Re.Matches (specFlags fl) buf r s0 (start + m.toNat)) :=
   envOf_sound r hwf hsz buf start hst fl hw hb fuel m c h
+
+open YaraModel.ReVm YaraModel.ReEmit in
+/-- `vm_sound_forward`: `vm_sound` for one-byte AND two-byte (wide) characters.  For every well-formed expression, every
+    buffer, start position and flags with RE_FLAGS_BACKWARDS off (wide or not, nocase, dot-all, exhaustive or not; the scan
+    mode only in byte mode, as the `matches` operator uses it): a length L (in bytes) reported by the model of `yr_re_exec`
+    on the forward code ends a match of the expression — under the specification's flags with the SAME wide bit: every
+    character two bytes with a zero high byte — that begins s0 ≤ L bytes after the start position (s0 = 0 outside the
+    scan mode) and lies inside the buffer. -/
+theorem vm_sound_forward (r : Re) (hwf : WF r) (hsz : (emit false r 0).1.length < 32000) (buf : Bytes) (start : Nat) (hst : start ≤ buf.size)
+    (fl : VmFlags) (hb : fl.backwards = false) (hsw : fl.scan = true → fl.wide = false) (fuel : Nat) (m : Int) (c : List Nat)
+    (h : exec { code := (emitCode false r).toArray, entry := 0, buf := buf, start := start, fl := fl, syncFuel := fuel } = .done m c) :
+    (∀ L, L ∈ c → ∃ s0, s0 ≤ L ∧ start + L ≤ buf.size ∧ (fl.scan = false → s0 = 0) ∧
+      Re.Matches (specFlagsG fl) buf r (start + s0) (start + L)) ∧
+    (0 ≤ m → ∃ s0, s0 ≤ m.toNat ∧ start + m.toNat ≤ buf.size ∧ (fl.scan = false → s0 = 0) ∧
+      Re.Matches (specFlagsG fl) buf r (start + s0) (start + m.toNat)) :=
+  vm_sound_fwd r hwf hsz buf start hst fl hb hsw fuel m c h
+
+open YaraModel.ReVm YaraModel.ReEmit in
+/-- `vm_sound_backward`: the BACKWARD code (`_yr_re_emit` with EMIT_BACKWARDS — proved to be the forward code of the mirrored
+    expression, `emit_rev`) run by the model of `yr_re_exec` with RE_FLAGS_BACKWARDS, one-byte or wide characters: for every
+    well-formed expression, buffer and start position, every reported length L satisfies L ≤ start and the expression
+    matches buf[start - L, start) — the part of a string match BEFORE the atom that `_yr_scan_verify_re_match` looks for.
+    (`$` never holds in backward code, `^` only at the beginning of the data, word boundaries are symmetric — as in re.c.)
+    The same abstract-machine proof as forwards: only the single-instruction lemmas differ (`Dir`, Lemmas/ReDir.lean). -/
+theorem vm_sound_backward (r : Re) (hwf : WF r) (hsz : (emit true r 0).1.length < 32000) (buf : Bytes) (start : Nat) (hst : start ≤ buf.size)
+    (fl : VmFlags) (hb : fl.backwards = true) (hsc : fl.scan = false) (fuel : Nat) (m : Int) (c : List Nat)
+    (h : exec { code := (emitCode true r).toArray, entry := 0, buf := buf, start := start, fl := fl, syncFuel := fuel } = .done m c) :
+    (∀ L, L ∈ c → L ≤ start ∧ Re.Matches (specFlagsG fl) buf r (start - L) start) ∧
+    (0 ≤ m → m.toNat ≤ start ∧ Re.Matches (specFlagsG fl) buf r (start - m.toNat) start) :=
+  vm_sound_bwd r hwf hsz buf start hst fl hb hsc fuel m c h
+
+open YaraModel.ReVm YaraModel.ReEmit in
+/-- instance: the backward code of `ab+` run backwards from the end of `xabb` reports the lengths 3 (exhaustive mode) -/
+example : exec { code := (emitCode true (.cat (.lit 97) (.plus (.lit 98) true))).toArray, entry := 0, buf := "xabb".toUTF8.data, start := 4, fl := { backwards := true, exhaustive := true } } = .done 3 [3] := by decide
 
 open YaraModel.ReVm YaraModel.ReEmit in
 /-- `matches_sound`: the `matches` operator never holds without reason.  `str matches /r/` runs `yr_re_exec` in scan mode
